@@ -880,7 +880,7 @@ def redundant(src, key=None, groups=False):
     redundant_order = []
     redundant_groups = {}
     for i in src:
-        k = key_func(i) if key else i
+        k = key_func(i) if key is not None else i
         if k not in seen:
             seen[k] = i
         else:
